@@ -27,6 +27,7 @@ Reading guide.
 import Lemmas.C15NxGrid
 import Lemmas.C15NxMulti
 import Lemmas.C15NxRand
+import Lemmas.C15NxRegular
 namespace Cnfgen.C15
 open Cnfgen Cnfgen.Nx
 
@@ -288,6 +289,54 @@ theorem gnm_spec (n m : Nat) (hm : 2 * m ≤ n * (n - 1)) (ds : List NxDraw)
 
 example : ∃ S, gnmSimple 4 2 [.choice 0, .choice 0, .choice 1, .choice 2, .choice 2, .choice 1, .choice 3, .choice 0] =
     .ok (.ok S) [] ∧ S.m = 2 := by
+  refine ⟨_, rfl, ?_⟩; decide
+
+/-! ## T-C15.N5 gnd -/
+
+/-- `gnd N d` with `N·d` even and `d < N` (what cnfgen's guards leave), for EVERY list of shuffles: a run
+of `networkx.random_regular_graph` that ends — after any number of pairing rounds and any number of
+restarts, whatever `_suitable` answered — gives, through `Graph.normalize`, a graph object on `N` vertices
+satisfying the invariant of C16 in which EVERY vertex has exactly `d` neighbours (`degree(v) = d`), with
+`N·d/2` edges; no `NetworkXError`; the run consumed a prefix of the draws.
+(The order in which networkx hands the edges over — the iteration order of a Python set — is not modelled;
+the object `S` does not depend on it except for the internal order of the list `S.edgeset`, which stands for a set.) -/
+theorem gnd_spec (n d : Nat) (heven : (n * d) % 2 = 0) (hd : d < n) (ds : List NxDraw)
+    (r : Option (Except Err SimpleG)) (rest : List NxDraw) (h : gndSimple n d ds = .ok r rest) :
+    ∃ S, r = some (.ok S) ∧ S.n = n ∧ SimpleG.Inv S ∧
+      (∀ v : Nat, 1 ≤ v → v ≤ n → (S.nbrs v).length = d ∧ S.degree (v : Int) = .ok d) ∧
+      2 * S.m = n * d ∧ ∃ used, ds = used ++ rest := by
+  unfold gndSimple at h
+  split at h
+  · rename_i G rest' hG
+    cases h
+    obtain ⟨G', g0, g1, g2, g3, g4, g5, g6⟩ := regularGraph_ok heven hd hG
+    cases g0
+    obtain ⟨S, s1, s2, s3, s4, s5⟩ := fromNetworkx_spec g2 g3
+    refine ⟨S, by rw [s1], by rw [s2, g1], s3, ?_, by rw [s5]; exact g5, g6⟩
+    intro v hv1 hv2
+    have hdeg : (S.nbrs v).length = d := by
+      have := fromNetworkx_degree g2 s3 s4 (v - 1)
+      rw [show v - 1 + 1 = v by omega] at this
+      rw [this]; exact g4 (v - 1) (by omega)
+    refine ⟨hdeg, ?_⟩
+    simp only [SimpleG.degree, SimpleG.neighbors]
+    rw [if_neg (by simp only [Decidable.not_not]; rw [s2, g1]; omega)]
+    simp only [bind, Except.bind, pure, Except.pure, Int.toNat_natCast]
+    congr 1
+  · rename_i rest' hG
+    obtain ⟨G', g0, _⟩ := regularGraph_ok heven hd hG
+    cases g0
+  · cases h
+
+example : ∃ S, gndSimple 4 2 [.shuffle [0, 1, 2, 3, 0, 1, 2, 3] [0, 1, 1, 2, 2, 3, 3, 0]] = .ok (some (.ok S)) [] ∧
+    (S.nbrs 3).length = 2 := by
+  refine ⟨_, rfl, ?_⟩; decide
+
+/-- a run with two rounds: the first shuffle pairs `0,1` twice and `2` with itself, the left-over stubs
+`0,1,2,2` are shuffled again and resolved (runs with restarts are exercised by the correspondence suite
+`nx_gnd`, class `gnd:restarted`) -/
+example : ∃ S, gndSimple 3 2 [.shuffle [0, 1, 2, 0, 1, 2] [0, 1, 0, 1, 2, 2], .shuffle [0, 1, 2, 2] [0, 2, 1, 2]] =
+    .ok (some (.ok S)) [] ∧ S.m = 3 := by
   refine ⟨_, rfl, ?_⟩; decide
 
 end Cnfgen.C15
